@@ -27,6 +27,9 @@ for sig in sorted(sigs):
     cls = next((c for c in CLASSES if c in sig), None)
     if cls is None:
         print("UNCLASSIFIED class, not recorded:", sig); continue
-    k["findings"].append({"property": "C08", "signature": sig, "what": CLASSES[cls] + "; input: " + sig.split(" :: ")[1] + " (" + sig.split(" mesh:")[0] + ")"})
+    what = CLASSES[cls]
+    if "non-finite vertex" in sig:
+        what = "NaN vertex: " + what.replace("zero-area triangle: ", "") + " (the QEF of a cell whose intersections coincide yields NaN)"
+    k["findings"].append({"property": "C08", "signature": sig, "what": what + "; input: " + sig.split(" :: ")[1] + " (" + sig.split(" mesh:")[0] + ")"})
 json.dump(k, open("/verif/known_findings.json", "w"), indent=1)
 print("C08 findings recorded:", sum(1 for f in k["findings"] if f["property"] == "C08"))
